@@ -1,6 +1,7 @@
 package c20
 
 import (
+	"time"
 	"bytes"
 	"crypto/sha256"
 	"fmt"
@@ -58,6 +59,8 @@ func setup() error {
 	return ferr
 }
 
+var styles = []canvas.FontStyle{canvas.FontRegular, canvas.FontRegular, canvas.FontBold, canvas.FontItalic, canvas.FontBold | canvas.FontItalic, canvas.FontLight, canvas.FontExtraBold}
+
 var texts = []string{"Hello world", "fi office AVATAR To Wa", "0123456789", "The quick brown fox jumps over the lazy dog", "Ünï q̣ x̂́", "αβγ Жук", "a b c d e f g h i j k l m n o p", "wish­ing beau­ti­ful daugh­ters"}
 
 func genJob(t *rapid.T) Job {
@@ -80,7 +83,7 @@ func genJob(t *rapid.T) Job {
 	case k == 9:
 		return Job{Kind: "dash", P: gen.Path(t, gen.DefaultOpts()), F: []float64{float64(rapid.IntRange(-8, 8).Draw(t, "off")) / 4, float64(rapid.IntRange(1, 8).Draw(t, "d1")) / 4, float64(rapid.IntRange(1, 8).Draw(t, "d2")) / 4}}
 	case k == 10:
-		return Job{Kind: "text", Op: rapid.IntRange(0, 1).Draw(t, "font"), S: texts[rapid.IntRange(0, len(texts)-1).Draw(t, "text")], F: []float64{float64(rapid.IntRange(6, 24).Draw(t, "size"))}}
+		return Job{Kind: "text", Op: rapid.IntRange(0, 1).Draw(t, "font"), S: texts[rapid.IntRange(0, len(texts)-1).Draw(t, "text")], F: []float64{float64(rapid.IntRange(6, 24).Draw(t, "size")), float64(rapid.IntRange(0, len(styles)-1).Draw(t, "style"))}}
 	case k == 11:
 		return Job{Kind: "richtext", Op: rapid.IntRange(0, 1).Draw(t, "font"), S: texts[rapid.IntRange(0, len(texts)-1).Draw(t, "text")] + " " + texts[rapid.IntRange(0, len(texts)-1).Draw(t, "text2")], F: []float64{float64(rapid.IntRange(6, 24).Draw(t, "size")), float64(rapid.IntRange(2, 12).Draw(t, "width")) * 10, float64(rapid.IntRange(0, 3).Draw(t, "align"))}}
 	case k == 12:
@@ -148,8 +151,13 @@ func run(j Job) (res string) {
 	case "dash":
 		return j.P.Build().Dash(j.F[0], j.F[1], j.F[2]).String()
 	case "text":
-		face := fonts[j.Op].Face(j.F[0], canvas.Black, canvas.FontRegular, canvas.FontNormal)
-		return layout(canvas.NewTextLine(face, j.S, canvas.Left))
+		// the families hold the regular style only: the other styles are derived (faux bold / italic) on every request
+		style := canvas.FontRegular
+		if len(j.F) > 1 {
+			style = styles[int(j.F[1])]
+		}
+		face := fonts[j.Op].Face(j.F[0], canvas.Black, style, canvas.FontNormal)
+		return fmt.Sprintf("faux=%v/%v ", face.FauxBold, face.FauxItalic) + layout(canvas.NewTextLine(face, j.S, canvas.Left))
 	case "richtext":
 		face := fonts[j.Op].Face(j.F[0], canvas.Black, canvas.FontRegular, canvas.FontNormal)
 		rt := canvas.NewRichText(face)
@@ -342,7 +350,9 @@ func checkCase(c Case, r *vf.R) error {
 		}(g)
 	}
 	close(start)
-	wg.Wait()
+	// calls that corrupt each other's sweep state may never return: after three minutes the batch is a violation
+	// (the goroutines cannot be stopped, the shard ends here)
+	vf.Watchdog("concurrent", c, 180*time.Second, func() { wg.Wait() })
 	if rep := raceReports(); rep != "" {
 		lines := strings.Split(rep, "\n")
 		if len(lines) > 40 {
